@@ -11,7 +11,7 @@ trVars == <<order, val, dirty, clock, lastUse, ret, l>>
 
 SetOf(s) == {s[i] : i \in 1..Len(s)}
 Ev == Trace[l]
-IsEvent(a) == l <= Len(Trace) /\ Ev.a = a /\ l' = l + 1 /\ TLCSet(1, l + 1)
+IsEvent(a) == l <= Len(Trace) /\ Ev.a = a /\ l' = l + 1
 
 \* what the code reported must be what the specification's action produces
 Matches == /\ ret'.r = Ev.r
@@ -26,7 +26,8 @@ TraceSet == IsEvent("set") /\ Set(Ev.k, Ev.v, Ev.d) /\ Matches /\ ret'.ev = Ev.e
 TraceGet == IsEvent("get") /\ Get(Ev.k) /\ Matches /\ ret'.hit = Ev.hit /\ (Ev.hit => ret'.v = Ev.rv)
 TraceDirty == IsEvent("dirty") /\ MarkDirty(Ev.k) /\ Matches
 TraceClean == IsEvent("clean") /\ MarkClean(Ev.k) /\ Matches
-TraceNext == TraceReset \/ TraceSet \/ TraceGet \/ TraceDirty \/ TraceClean
+\* the high-water mark is advanced only after the event was matched by an action
+TraceNext == (TraceReset \/ TraceSet \/ TraceGet \/ TraceDirty \/ TraceClean) /\ TLCSet(1, l')
 TraceSpec == TraceInit /\ [][TraceNext]_trVars
 
 TraceAccepted ==
